@@ -1374,6 +1374,9 @@ func main() {
 		ijson.VerifScanTable(os.Stdout)
 	case "codec":
 		streamCodec(r, n, pfx)
+		streamDec(&rng{s: r.next()}, n, pfx+"d")
+	case "dec":
+		streamDec(r, n, pfx)
 	case "std":
 		streamStd(r, n, pfx)
 	case "hist":
